@@ -474,6 +474,22 @@ def mode_stress(spec):
             except BaseException as e:
                 res[i] = ["exc", type(e).__name__, str(e)[:200]]
 
+    ylines = set(spec.get("yield_lines") or [])
+    if ylines:
+        # widen the window at the lines of _hooks.py that write module-level state (found by lib/x_once.py): a thread that reaches one
+        # sleeps briefly BEFORE executing it, so that other threads get to run between the check and the write
+        import time as _time
+
+        def _local(frame, event, arg):
+            if event == "line" and frame.f_lineno in ylines:
+                _time.sleep(0.0004)
+            return _local
+
+        def _tracer(frame, event, arg):
+            if event == "call" and frame.f_code.co_filename.endswith("_hooks.py"):
+                return _local
+            return None
+        threading.settrace(_tracer)
     ths = [threading.Thread(target=worker, args=(i,)) for i in range(n)]
     for t in ths:
         t.start()
